@@ -136,12 +136,15 @@ def rec_wvar(sc):
     for (k, wnone) in sc["calls"]:
         e = dict(ev="wvar", k=k, wnone=bool(wnone), res="val", vals=[], vcls=[])
         x = np.array(cols, dtype=float).T            # observations in rows
+        # off / pw: the code sees (x + off) * 2^pw (exact in floats for the integers used); the variance does not depend on
+        # the location and scales by 4^pw, so the logged value / 4^pw is judged against the formula on the small integers
+        x = (x + float(sc.get("off", 0))) * 2.0 ** sc.get("pw", 0)
         if sc.get("flat") and len(cols) == 1:
             x = x[:, 0]
         try:
             with time_limit(5), np.errstate(all="ignore"):
                 s2 = weighted_var(x, None if wnone else np.array([k * w for w in ws], dtype=float))
-            s2 = np.atleast_1d(np.asarray(s2, dtype=float)).ravel()
+            s2 = np.atleast_1d(np.asarray(s2, dtype=float)).ravel() / 4.0 ** sc.get("pw", 0)
             e["vals"], e["vcls"] = [list(t) for t in zip(*[fx_cls(v, 10 ** 6) for v in s2])] if len(s2) else ([], [])
         except Hang:
             e["res"] = "hang"
@@ -355,7 +358,55 @@ def rec_rvs(sc):
                 possible=True, events=events)
 
 
-RECORDERS = dict(wq=rec_wq, wvar=rec_wvar, ess=rec_ess, gm=rec_gm, rvs=rec_rvs)
+def rec_gmo(sc):
+    """GMDistribution.pdf / logpdf with a full covariance matrix against the definition evaluated with numpy (oracle field)"""
+    from elfi.methods.utils import GMDistribution
+    means = np.array(sc["means"], dtype=float)
+    cov = np.array(sc["cov"], dtype=float)
+    w = np.array(sc["wts"], dtype=float)
+    x = np.array(sc["pts"], dtype=float)
+    e = dict(ev="gmo", res="val", lp=[], lq=[], o=[])
+    try:
+        with time_limit(10), np.errstate(all="ignore"):
+            p = np.atleast_1d(np.asarray(GMDistribution.pdf(x, means=means, cov=cov, weights=w), dtype=float)).ravel()
+            lq = np.atleast_1d(np.asarray(GMDistribution.logpdf(x, means=means, cov=cov, weights=w), dtype=float)).ravel()
+        d = means.shape[1]
+        _sign, logdet = np.linalg.slogdet(cov)
+        wn = w / w.sum()
+        dens = np.zeros(len(x))
+        for m, wi in zip(means, wn):
+            r = x - m
+            dens += wi * np.exp(-0.5 * np.einsum("ij,ij->i", r, np.linalg.solve(cov, r.T).T) - 0.5 * (d * math.log(2 * math.pi) + logdet))
+        if not (np.all(np.isfinite(p)) and np.all(p > 0) and np.all(np.isfinite(lq)) and np.all(dens > 0)):
+            e["res"] = "nonfinite"
+        else:
+            e["lp"] = [int(round(math.log(v) * 1e6)) for v in p]
+            e["lq"] = [int(round(float(v) * 1e6)) for v in lq]
+            e["o"] = [int(round(math.log(v) * 1e6)) for v in dens]
+    except Hang:
+        e["res"] = "hang"
+        HANGS[0] += 1
+    except Exception as ex:
+        e["res"] = "raise"
+        e["exc"] = type(ex).__name__
+    return dict(kind="gmo", events=[e])
+
+
+def gmo_scenarios(ctx, rnd):
+    out = []
+    for _ in range(60 if ctx.quick else 600):
+        d = rnd.choice([2, 2, 3])
+        n = rnd.randint(1, 4)
+        A = [[rnd.randint(-2, 2) / 2.0 for _j in range(d)] for _i in range(d)]
+        cov = (np.array(A) @ np.array(A).T + np.eye(d) * rnd.choice([0.5, 1.0])).tolist()       # symmetric positive definite, correlated
+        means = [[rnd.randint(-4, 4) / 2.0 for _j in range(d)] for _i in range(n)]
+        wts = [rnd.choice([1, 2, 3]) for _i in range(n)]
+        pts = [[m + rnd.randint(-3, 3) / 2.0 for m in rnd.choice(means)] for _k in range(rnd.randint(1, 4))]
+        out.append(dict(kind="gmo", means=means, cov=cov, wts=wts, pts=pts))
+    return out, 0
+
+
+RECORDERS = dict(wq=rec_wq, wvar=rec_wvar, ess=rec_ess, gm=rec_gm, rvs=rec_rvs, gmo=rec_gmo)
 
 
 # ---------------------------------------------------------------------------------------------
@@ -438,6 +489,8 @@ def wvar_scenarios(ctx, rnd):
             ok = ok and all(var_fits(c, w) for c in cols)
         if ok:
             out.append(dict(kind="wvar", cols=cols, ws=ws, calls=calls, flat=rnd.random() < 0.5))
+            if rnd.random() < 0.3:      # the same sample far from the origin and / or on another scale
+                out.append(dict(out[-1], off=rnd.choice([0, 10 ** 5, 10 ** 7, 2 ** 24, -10 ** 6]), pw=rnd.choice([0, 0, -20, 12])))
     return out, n_exh
 
 
@@ -768,7 +821,7 @@ def run(ctx):
     totals = []
     try:
         for name, gen in (("wq", wq_scenarios), ("wvar", wvar_scenarios), ("ess", ess_scenarios), ("gm", gm_scenarios),
-                          ("rvs", rvs_scenarios)):
+                          ("gmo", gmo_scenarios), ("rvs", rvs_scenarios)):
             scs, n_exh = gen(ctx, rnd)
             fix_patterns(scs)
             totals.append("%s: %d exhaustive + %d random" % (name, n_exh, len(scs) - n_exh))
